@@ -35,15 +35,15 @@ theorem sanitized_eq (p : Props) (h : p.sanitized.basicCount = 1) : p.sanitized 
 
 /-! ### execution -/
 
-@[simp] theorem exec_nil (sigOK : Key → Bytes → Bool) (s : St) : exec sigOK [] s = some s := rfl
+@[simp] theorem exec_nil (E : EvalEnv) (s : St) : exec E [] s = some s := rfl
 
-theorem exec_append (sigOK : Key → Bytes → Bool) (a b : List Op) (s : St) :
-    exec sigOK (a ++ b) s = (exec sigOK a s).bind (exec sigOK b) := by
+theorem exec_append (E : EvalEnv) (a b : List Op) (s : St) :
+    exec E (a ++ b) s = (exec E a s).bind (exec E b) := by
   induction a generalizing s with
   | nil => simp [exec]
   | cons o os ih =>
     simp only [List.cons_append, exec]
-    cases step sigOK o s with
+    cases step E o s with
     | none => rfl
     | some s' => simpa using ih s'
 
@@ -61,48 +61,48 @@ def Op.isControl : Op → Bool
   | .opif | .notif | .opelse | .endif => true
   | _ => false
 
-theorem step_skip (sigOK : Key → Bytes → Bool) (o : Op) (s : St) (ho : o.isControl = false)
-    (hc : executing s.conds = false) : step sigOK o s = some s := by
+theorem step_skip (E : EvalEnv) (o : Op) (s : St) (ho : o.isControl = false)
+    (hc : executing s.conds = false) : step E o s = some s := by
   cases o <;> simp [Op.isControl] at ho <;> simp [step, hc]
 
-theorem step_skip' (sigOK : Key → Bytes → Bool) (o : Op) (st al : List Bytes) (cs : List Bool)
+theorem step_skip' (E : EvalEnv) (o : Op) (st al : List Bytes) (cs : List Bool)
     (ho : o.isControl = false) (hc : executing cs = false) :
-    step sigOK o ⟨st, al, cs⟩ = some ⟨st, al, cs⟩ := step_skip sigOK o _ ho hc
+    step E o ⟨st, al, cs⟩ = some ⟨st, al, cs⟩ := step_skip E o _ ho hc
 
-theorem step_run' (sigOK : Key → Bytes → Bool) (o : Op) (st al : List Bytes) (cs : List Bool)
+theorem step_run' (E : EvalEnv) (o : Op) (st al : List Bytes) (cs : List Bool)
     (ho : o.isControl = false) (hc : executing cs = true) :
-    step sigOK o ⟨st, al, cs⟩ = stepExec sigOK o ⟨st, al, cs⟩ := by
+    step E o ⟨st, al, cs⟩ = stepExec E o ⟨st, al, cs⟩ := by
   cases o <;> simp [Op.isControl] at ho <;> simp [step, hc]
 
-theorem step_run (sigOK : Key → Bytes → Bool) (o : Op) (s : St) (ho : o.isControl = false)
-    (hc : executing s.conds = true) : step sigOK o s = stepExec sigOK o s := by
+theorem step_run (E : EvalEnv) (o : Op) (s : St) (ho : o.isControl = false)
+    (hc : executing s.conds = true) : step E o s = stepExec E o s := by
   cases o <;> simp [Op.isControl] at ho <;> simp [step, hc]
 
 theorem executing_cons (c : Bool) (cs : List Bool) : executing (c :: cs) = (c && executing cs) := by
   simp [executing]
 
-theorem exec_one_skip (sigOK : Key → Bytes → Bool) (o : Op) (st al : List Bytes) (cs : List Bool)
+theorem exec_one_skip (E : EvalEnv) (o : Op) (st al : List Bytes) (cs : List Bool)
     (ho : o.isControl = false) (hc : executing cs = false) :
-    exec sigOK [o] ⟨st, al, cs⟩ = some ⟨st, al, cs⟩ := by
-  simp [exec, step_skip' sigOK o st al cs ho hc]
+    exec E [o] ⟨st, al, cs⟩ = some ⟨st, al, cs⟩ := by
+  simp [exec, step_skip' E o st al cs ho hc]
 
-theorem exec_cons_skip (sigOK : Key → Bytes → Bool) (o : Op) (os : List Op) (st al : List Bytes)
+theorem exec_cons_skip (E : EvalEnv) (o : Op) (os : List Op) (st al : List Bytes)
     (cs : List Bool) (ho : o.isControl = false) (hc : executing cs = false) :
-    exec sigOK (o :: os) ⟨st, al, cs⟩ = exec sigOK os ⟨st, al, cs⟩ := by
-  simp [exec, step_skip' sigOK o st al cs ho hc]
+    exec E (o :: os) ⟨st, al, cs⟩ = exec E os ⟨st, al, cs⟩ := by
+  simp [exec, step_skip' E o st al cs ho hc]
 
 /-- a branch that is not executed leaves the machine as it was. -/
-theorem exec_skip (sigOK : Key → Bytes → Bool) (ctx : Ctx) (h160 : Bytes → Bytes) :
+theorem exec_skip (E : EvalEnv) (ctx : Ctx) (h160 : Bytes → Bytes) :
     ∀ (n : Ms) (v : Bool) (st al : List Bytes) (cs : List Bool), inS1 n = true →
       executing cs = false →
-      exec sigOK (opsOf ctx h160 v n) ⟨st, al, cs⟩ = some ⟨st, al, cs⟩
-  | .f0, _, st, al, cs, _, hc => exec_one_skip sigOK .op0 st al cs rfl hc
-  | .f1, _, st, al, cs, _, hc => exec_one_skip sigOK .op1 st al cs rfl hc
-  | .pk_k k, _, st, al, cs, _, hc => exec_one_skip sigOK (.push k) st al cs rfl hc
+      exec E (opsOf ctx h160 v n) ⟨st, al, cs⟩ = some ⟨st, al, cs⟩
+  | .f0, _, st, al, cs, _, hc => exec_one_skip E .op0 st al cs rfl hc
+  | .f1, _, st, al, cs, _, hc => exec_one_skip E .op1 st al cs rfl hc
+  | .pk_k k, _, st, al, cs, _, hc => exec_one_skip E (.push k) st al cs rfl hc
   | .wrap w x, v, st, al, cs, hin, hc => by
     simp only [inS1, Bool.and_eq_true, Bool.or_eq_true, beq_iff_eq] at hin
-    have H := fun v => exec_skip sigOK ctx h160 x v st al cs hin.2 hc
-    have hs := fun o ho os => exec_cons_skip sigOK o os st al cs ho hc
+    have H := fun v => exec_skip E ctx h160 x v st al cs hin.2 hc
+    have hs := fun o ho os => exec_cons_skip E o os st al cs ho hc
     rcases hin.1 with ((rfl | rfl) | rfl) | rfl
     · cases v <;> simp [opsOf, exec_append, H, hs .checksig rfl, hs .checksigverify rfl]
     · simp only [opsOf, exec_append, H]
@@ -111,12 +111,12 @@ theorem exec_skip (sigOK : Key → Bytes → Bool) (ctx : Ctx) (h160 : Bytes →
     · simp [opsOf, exec_append, H, hs .zeronotequal rfl]
   | .bin b x y, v, st, al, cs, hin, hc => by
     simp only [inS1, Bool.and_eq_true, Bool.or_eq_true, beq_iff_eq] at hin
-    have Hx := fun v => exec_skip sigOK ctx h160 x v st al cs hin.1.2 hc
-    have Hy := fun v => exec_skip sigOK ctx h160 y v st al cs hin.2 hc
-    have hs := fun o ho os => exec_cons_skip sigOK o os st al cs ho hc
-    have Hx' := exec_skip sigOK ctx h160 x false st al (false :: cs) hin.1.2 (by simp [executing_cons])
-    have Hy' := exec_skip sigOK ctx h160 y false st al (true :: cs) hin.2 (by simp [executing_cons, hc])
-    have Hy'' := exec_skip sigOK ctx h160 y false st al (false :: cs) hin.2 (by simp [executing_cons])
+    have Hx := fun v => exec_skip E ctx h160 x v st al cs hin.1.2 hc
+    have Hy := fun v => exec_skip E ctx h160 y v st al cs hin.2 hc
+    have hs := fun o ho os => exec_cons_skip E o os st al cs ho hc
+    have Hx' := exec_skip E ctx h160 x false st al (false :: cs) hin.1.2 (by simp [executing_cons])
+    have Hy' := exec_skip E ctx h160 y false st al (true :: cs) hin.2 (by simp [executing_cons, hc])
+    have Hy'' := exec_skip E ctx h160 y false st al (false :: cs) hin.2 (by simp [executing_cons])
     rcases hin.1.1 with ((((rfl | rfl) | rfl) | rfl) | rfl) | rfl
     · simp [opsOf, exec_append, Hx, Hy]
     · simp [opsOf, exec_append, Hx, Hy, hs .booland rfl]
@@ -126,107 +126,107 @@ theorem exec_skip (sigOK : Key → Bytes → Bool) (ctx : Ctx) (h160 : Bytes →
     · simp [opsOf, exec_append, Hx, hs .ifdup rfl, exec, step, hc, Hy'']
   | .andor x y z, v, st, al, cs, hin, hc => by
     simp only [inS1, Bool.and_eq_true] at hin
-    have Hx := exec_skip sigOK ctx h160 x false st al cs hin.1.1 hc
-    have Hz := exec_skip sigOK ctx h160 z false st al (false :: cs) hin.2 (by simp [executing_cons])
-    have Hy := exec_skip sigOK ctx h160 y false st al (true :: cs) hin.1.2 (by simp [executing_cons, hc])
+    have Hx := exec_skip E ctx h160 x false st al cs hin.1.1 hc
+    have Hz := exec_skip E ctx h160 z false st al (false :: cs) hin.2 (by simp [executing_cons])
+    have Hy := exec_skip E ctx h160 y false st al (true :: cs) hin.1.2 (by simp [executing_cons, hc])
     simp [opsOf, exec_append, Hx, exec, step, hc, Hz, Hy]
 
 /-! ### what satisfies and what dissatisfies (BIP379's tables, stack order: head = top) -/
 
 mutual
-/-- `Sat sigOK n s`: the stack segment `s` (top first) is a satisfaction of `n`: every candidate
+/-- `Sat E n s`: the stack segment `s` (top first) is a satisfaction of `n`: every candidate
     `_computed_input` lists under `sat` for the fragments of S1 (the overcomplete ones included). -/
-inductive Sat (sigOK : Key → Bytes → Bool) : Ms → List Bytes → Prop
-  | f1 : Sat sigOK .f1 []
-  | pk_k (k : Key) (σ : Bytes) : sigOK k σ = true → Sat sigOK (.pk_k k) [σ]
-  | wrap (w : Wrap) (x : Ms) (s : List Bytes) : Sat sigOK x s → Sat sigOK (.wrap w x) s
+inductive Sat (E : EvalEnv) : Ms → List Bytes → Prop
+  | f1 : Sat E .f1 []
+  | pk_k (k : Key) (σ : Bytes) : E.sigOK k σ = true → Sat E (.pk_k k) [σ]
+  | wrap (w : Wrap) (x : Ms) (s : List Bytes) : Sat E x s → Sat E (.wrap w x) s
   | and_v (x y : Ms) (sx sy : List Bytes) :
-    Sat sigOK x sx → Sat sigOK y sy → Sat sigOK (.bin .and_v x y) (sx ++ sy)
+    Sat E x sx → Sat E y sy → Sat E (.bin .and_v x y) (sx ++ sy)
   | and_b (x y : Ms) (sx sy : List Bytes) :
-    Sat sigOK x sx → Sat sigOK y sy → Sat sigOK (.bin .and_b x y) (sx ++ sy)
+    Sat E x sx → Sat E y sy → Sat E (.bin .and_b x y) (sx ++ sy)
   | or_b_l (x y : Ms) (sx sy : List Bytes) :
-    Sat sigOK x sx → Dsat sigOK y sy → Sat sigOK (.bin .or_b x y) (sx ++ sy)
+    Sat E x sx → Dsat E y sy → Sat E (.bin .or_b x y) (sx ++ sy)
   | or_b_r (x y : Ms) (sx sy : List Bytes) :
-    Dsat sigOK x sx → Sat sigOK y sy → Sat sigOK (.bin .or_b x y) (sx ++ sy)
+    Dsat E x sx → Sat E y sy → Sat E (.bin .or_b x y) (sx ++ sy)
   | or_b_both (x y : Ms) (sx sy : List Bytes) :
-    Sat sigOK x sx → Sat sigOK y sy → Sat sigOK (.bin .or_b x y) (sx ++ sy)
-  | or_i_l (x y : Ms) (sx : List Bytes) : Sat sigOK x sx → Sat sigOK (.bin .or_i x y) ([1] :: sx)
-  | or_i_r (x y : Ms) (sy : List Bytes) : Sat sigOK y sy → Sat sigOK (.bin .or_i x y) ([] :: sy)
-  | or_c_l (x y : Ms) (sx : List Bytes) : Sat sigOK x sx → Sat sigOK (.bin .or_c x y) sx
+    Sat E x sx → Sat E y sy → Sat E (.bin .or_b x y) (sx ++ sy)
+  | or_i_l (x y : Ms) (sx : List Bytes) : Sat E x sx → Sat E (.bin .or_i x y) ([1] :: sx)
+  | or_i_r (x y : Ms) (sy : List Bytes) : Sat E y sy → Sat E (.bin .or_i x y) ([] :: sy)
+  | or_c_l (x y : Ms) (sx : List Bytes) : Sat E x sx → Sat E (.bin .or_c x y) sx
   | or_c_r (x y : Ms) (sx sy : List Bytes) :
-    Dsat sigOK x sx → Sat sigOK y sy → Sat sigOK (.bin .or_c x y) (sx ++ sy)
-  | or_d_l (x y : Ms) (sx : List Bytes) : Sat sigOK x sx → Sat sigOK (.bin .or_d x y) sx
+    Dsat E x sx → Sat E y sy → Sat E (.bin .or_c x y) (sx ++ sy)
+  | or_d_l (x y : Ms) (sx : List Bytes) : Sat E x sx → Sat E (.bin .or_d x y) sx
   | or_d_r (x y : Ms) (sx sy : List Bytes) :
-    Dsat sigOK x sx → Sat sigOK y sy → Sat sigOK (.bin .or_d x y) (sx ++ sy)
+    Dsat E x sx → Sat E y sy → Sat E (.bin .or_d x y) (sx ++ sy)
   | andor_l (x y z : Ms) (sx sy : List Bytes) :
-    Sat sigOK x sx → Sat sigOK y sy → Sat sigOK (.andor x y z) (sx ++ sy)
+    Sat E x sx → Sat E y sy → Sat E (.andor x y z) (sx ++ sy)
   | andor_r (x y z : Ms) (sx sz : List Bytes) :
-    Dsat sigOK x sx → Sat sigOK z sz → Sat sigOK (.andor x y z) (sx ++ sz)
-/-- `Dsat sigOK n s`: a dissatisfaction. -/
-inductive Dsat (sigOK : Key → Bytes → Bool) : Ms → List Bytes → Prop
-  | f0 : Dsat sigOK .f0 []
-  | pk_k (k : Key) : Dsat sigOK (.pk_k k) [[]]
-  | wrap_c (x : Ms) (s : List Bytes) : Dsat sigOK x s → Dsat sigOK (.wrap .c x) s
-  | wrap_a (x : Ms) (s : List Bytes) : Dsat sigOK x s → Dsat sigOK (.wrap .a x) s
+    Dsat E x sx → Sat E z sz → Sat E (.andor x y z) (sx ++ sz)
+/-- `Dsat E n s`: a dissatisfaction. -/
+inductive Dsat (E : EvalEnv) : Ms → List Bytes → Prop
+  | f0 : Dsat E .f0 []
+  | pk_k (k : Key) : Dsat E (.pk_k k) [[]]
+  | wrap_c (x : Ms) (s : List Bytes) : Dsat E x s → Dsat E (.wrap .c x) s
+  | wrap_a (x : Ms) (s : List Bytes) : Dsat E x s → Dsat E (.wrap .a x) s
   | and_b (x y : Ms) (sx sy : List Bytes) :
-    Dsat sigOK x sx → Dsat sigOK y sy → Dsat sigOK (.bin .and_b x y) (sx ++ sy)
+    Dsat E x sx → Dsat E y sy → Dsat E (.bin .and_b x y) (sx ++ sy)
   | and_b_l (x y : Ms) (sx sy : List Bytes) :
-    Sat sigOK x sx → Dsat sigOK y sy → Dsat sigOK (.bin .and_b x y) (sx ++ sy)
+    Sat E x sx → Dsat E y sy → Dsat E (.bin .and_b x y) (sx ++ sy)
   | and_b_r (x y : Ms) (sx sy : List Bytes) :
-    Dsat sigOK x sx → Sat sigOK y sy → Dsat sigOK (.bin .and_b x y) (sx ++ sy)
+    Dsat E x sx → Sat E y sy → Dsat E (.bin .and_b x y) (sx ++ sy)
   | or_b (x y : Ms) (sx sy : List Bytes) :
-    Dsat sigOK x sx → Dsat sigOK y sy → Dsat sigOK (.bin .or_b x y) (sx ++ sy)
-  | or_i_l (x y : Ms) (sx : List Bytes) : Dsat sigOK x sx → Dsat sigOK (.bin .or_i x y) ([1] :: sx)
-  | or_i_r (x y : Ms) (sy : List Bytes) : Dsat sigOK y sy → Dsat sigOK (.bin .or_i x y) ([] :: sy)
-  | wrap_n (x : Ms) (s : List Bytes) : Dsat sigOK x s → Dsat sigOK (.wrap .n x) s
+    Dsat E x sx → Dsat E y sy → Dsat E (.bin .or_b x y) (sx ++ sy)
+  | or_i_l (x y : Ms) (sx : List Bytes) : Dsat E x sx → Dsat E (.bin .or_i x y) ([1] :: sx)
+  | or_i_r (x y : Ms) (sy : List Bytes) : Dsat E y sy → Dsat E (.bin .or_i x y) ([] :: sy)
+  | wrap_n (x : Ms) (s : List Bytes) : Dsat E x s → Dsat E (.wrap .n x) s
   | or_d (x y : Ms) (sx sy : List Bytes) :
-    Dsat sigOK x sx → Dsat sigOK y sy → Dsat sigOK (.bin .or_d x y) (sx ++ sy)
+    Dsat E x sx → Dsat E y sy → Dsat E (.bin .or_d x y) (sx ++ sy)
   | andor (x y z : Ms) (sx sz : List Bytes) :
-    Dsat sigOK x sx → Dsat sigOK z sz → Dsat sigOK (.andor x y z) (sx ++ sz)
+    Dsat E x sx → Dsat E z sz → Dsat E (.andor x y z) (sx ++ sz)
   | andor_y (x y z : Ms) (sx sy : List Bytes) :
-    Sat sigOK x sx → Dsat sigOK y sy → Dsat sigOK (.andor x y z) (sx ++ sy)
+    Sat E x sx → Dsat E y sy → Dsat E (.andor x y z) (sx ++ sy)
 end
 
 section
-variable (sigOK : Key → Bytes → Bool) (ctx : Ctx) (h160 : Bytes → Bytes)
+variable (E : EvalEnv) (ctx : Ctx) (h160 : Bytes → Bytes)
 
 /-- what type "B" promises: a satisfaction leaves 0x01 on the stack, a dissatisfaction the empty
     vector, nothing else is touched; and verified (`v:`), a satisfaction leaves nothing. -/
 def SoundB (n : Ms) : Prop :=
-  (∀ s stk al cs, executing cs = true → Sat sigOK n s →
-    exec sigOK (opsOf ctx h160 false n) ⟨s ++ stk, al, cs⟩ = some ⟨[1] :: stk, al, cs⟩) ∧
-  (∀ s stk al cs, executing cs = true → Dsat sigOK n s →
-    exec sigOK (opsOf ctx h160 false n) ⟨s ++ stk, al, cs⟩ = some ⟨[] :: stk, al, cs⟩) ∧
-  (∀ s stk al cs, executing cs = true → Sat sigOK n s →
-    exec sigOK (opsOf ctx h160 true n ++ if (typeOf ctx n).x then [.verify] else [])
+  (∀ s stk al cs, executing cs = true → Sat E n s →
+    exec E (opsOf ctx h160 false n) ⟨s ++ stk, al, cs⟩ = some ⟨[1] :: stk, al, cs⟩) ∧
+  (∀ s stk al cs, executing cs = true → Dsat E n s →
+    exec E (opsOf ctx h160 false n) ⟨s ++ stk, al, cs⟩ = some ⟨[] :: stk, al, cs⟩) ∧
+  (∀ s stk al cs, executing cs = true → Sat E n s →
+    exec E (opsOf ctx h160 true n ++ if (typeOf ctx n).x then [.verify] else [])
       ⟨s ++ stk, al, cs⟩ = some ⟨stk, al, cs⟩)
 
 /-- type "V": a satisfaction is consumed and nothing is left. -/
 def SoundV (n : Ms) : Prop :=
-  ∀ s stk al cs, executing cs = true → Sat sigOK n s →
-    exec sigOK (opsOf ctx h160 false n) ⟨s ++ stk, al, cs⟩ = some ⟨stk, al, cs⟩
+  ∀ s stk al cs, executing cs = true → Sat E n s →
+    exec E (opsOf ctx h160 false n) ⟨s ++ stk, al, cs⟩ = some ⟨stk, al, cs⟩
 
 /-- type "K": a key is left on top of a signature that verifies (satisfaction) or does not. -/
 def SoundK (n : Ms) : Prop :=
-  (∀ s stk al cs, executing cs = true → Sat sigOK n s → ∃ k σ, sigOK k σ = true ∧
-    exec sigOK (opsOf ctx h160 false n) ⟨s ++ stk, al, cs⟩ = some ⟨k :: σ :: stk, al, cs⟩) ∧
-  (∀ s stk al cs, executing cs = true → Dsat sigOK n s → ∃ k σ, sigOK k σ = false ∧
-    exec sigOK (opsOf ctx h160 false n) ⟨s ++ stk, al, cs⟩ = some ⟨k :: σ :: stk, al, cs⟩)
+  (∀ s stk al cs, executing cs = true → Sat E n s → ∃ k σ, E.sigOK k σ = true ∧
+    exec E (opsOf ctx h160 false n) ⟨s ++ stk, al, cs⟩ = some ⟨k :: σ :: stk, al, cs⟩) ∧
+  (∀ s stk al cs, executing cs = true → Dsat E n s → ∃ k σ, E.sigOK k σ = false ∧
+    exec E (opsOf ctx h160 false n) ⟨s ++ stk, al, cs⟩ = some ⟨k :: σ :: stk, al, cs⟩)
 
 /-- type "W": the same as "B", reading from under the top element and writing next to it. -/
 def SoundW (n : Ms) : Prop :=
-  (∀ top s stk al cs, executing cs = true → Sat sigOK n s → ∃ r,
-    exec sigOK (opsOf ctx h160 false n) ⟨top :: (s ++ stk), al, cs⟩ = some ⟨r, al, cs⟩ ∧
+  (∀ top s stk al cs, executing cs = true → Sat E n s → ∃ r,
+    exec E (opsOf ctx h160 false n) ⟨top :: (s ++ stk), al, cs⟩ = some ⟨r, al, cs⟩ ∧
     (r = [1] :: top :: stk ∨ r = top :: [1] :: stk)) ∧
-  (∀ top s stk al cs, executing cs = true → Dsat sigOK n s → ∃ r,
-    exec sigOK (opsOf ctx h160 false n) ⟨top :: (s ++ stk), al, cs⟩ = some ⟨r, al, cs⟩ ∧
+  (∀ top s stk al cs, executing cs = true → Dsat E n s → ∃ r,
+    exec E (opsOf ctx h160 false n) ⟨top :: (s ++ stk), al, cs⟩ = some ⟨r, al, cs⟩ ∧
     (r = [] :: top :: stk ∨ r = top :: [] :: stk))
 
 def Sound (n : Ms) : Prop :=
-  ((typeOf ctx n).B = true → SoundB sigOK ctx h160 n) ∧
-  ((typeOf ctx n).V = true → SoundV sigOK ctx h160 n) ∧
-  ((typeOf ctx n).K = true → SoundK sigOK ctx h160 n) ∧
-  ((typeOf ctx n).W = true → SoundW sigOK ctx h160 n)
+  ((typeOf ctx n).B = true → SoundB E ctx h160 n) ∧
+  ((typeOf ctx n).V = true → SoundV E ctx h160 n) ∧
+  ((typeOf ctx n).K = true → SoundK E ctx h160 n) ∧
+  ((typeOf ctx n).W = true → SoundW E ctx h160 n)
 
 end
 
@@ -393,34 +393,34 @@ theorem inS1_of_s1Typed (ctx : Ctx) : ∀ n, s1Typed ctx n = true → inS1 n = t
   | .pk_h _, h | .older _, h | .after _, h | .hash _ _, h | .multi _ _, h | .multi_a _ _, h
   | .thresh _ _ _, h => by simp [s1Typed] at h
 
-theorem exec_cons_run (sigOK : Key → Bytes → Bool) (o : Op) (os : List Op) (st al : List Bytes)
+theorem exec_cons_run (E : EvalEnv) (o : Op) (os : List Op) (st al : List Bytes)
     (cs : List Bool) (ho : o.isControl = false) (hc : executing cs = true) :
-    exec sigOK (o :: os) ⟨st, al, cs⟩ = (stepExec sigOK o ⟨st, al, cs⟩).bind (exec sigOK os) := by
-  simp [exec, step_run' sigOK o st al cs ho hc]
+    exec E (o :: os) ⟨st, al, cs⟩ = (stepExec E o ⟨st, al, cs⟩).bind (exec E os) := by
+  simp [exec, step_run' E o st al cs ho hc]
 
 section
-variable (sigOK : Key → Bytes → Bool) (ctx : Ctx) (h160 : Bytes → Bytes)
+variable (E : EvalEnv) (ctx : Ctx) (h160 : Bytes → Bytes)
 
 theorem sound_of_B (n : Ms) (ht : Typed ctx n) (hB : (typeOf ctx n).B = true)
-    (h : SoundB sigOK ctx h160 n) : Sound sigOK ctx h160 n := by
+    (h : SoundB E ctx h160 n) : Sound E ctx h160 n := by
   obtain ⟨e, _, _, _⟩ := basic_excl _ ht
   obtain ⟨hV, hK, hW⟩ := e hB
   exact ⟨fun _ => h, fun c => by simp [hV] at c, fun c => by simp [hK] at c, fun c => by simp [hW] at c⟩
 
 theorem sound_of_V (n : Ms) (ht : Typed ctx n) (hV : (typeOf ctx n).V = true)
-    (h : SoundV sigOK ctx h160 n) : Sound sigOK ctx h160 n := by
+    (h : SoundV E ctx h160 n) : Sound E ctx h160 n := by
   obtain ⟨_, e, _, _⟩ := basic_excl _ ht
   obtain ⟨hB, hK, hW⟩ := e hV
   exact ⟨fun c => by simp [hB] at c, fun _ => h, fun c => by simp [hK] at c, fun c => by simp [hW] at c⟩
 
 theorem sound_of_K (n : Ms) (ht : Typed ctx n) (hK : (typeOf ctx n).K = true)
-    (h : SoundK sigOK ctx h160 n) : Sound sigOK ctx h160 n := by
+    (h : SoundK E ctx h160 n) : Sound E ctx h160 n := by
   obtain ⟨_, _, e, _⟩ := basic_excl _ ht
   obtain ⟨hB, hV, hW⟩ := e hK
   exact ⟨fun c => by simp [hB] at c, fun c => by simp [hV] at c, fun _ => h, fun c => by simp [hW] at c⟩
 
 theorem sound_of_W (n : Ms) (ht : Typed ctx n) (hW : (typeOf ctx n).W = true)
-    (h : SoundW sigOK ctx h160 n) : Sound sigOK ctx h160 n := by
+    (h : SoundW E ctx h160 n) : Sound E ctx h160 n := by
   obtain ⟨_, _, _, e⟩ := basic_excl _ ht
   obtain ⟨hB, hV, hK⟩ := e hW
   exact ⟨fun c => by simp [hB] at c, fun c => by simp [hV] at c, fun c => by simp [hK] at c, fun _ => h⟩
@@ -429,88 +429,88 @@ theorem sound_of_W (n : Ms) (ht : Typed ctx n) (hW : (typeOf ctx n).W = true)
     run is the plain run followed by OP_VERIFY. -/
 theorem bVer_of_x (n : Ms) (hx : (typeOf ctx n).x = true)
     (hops : opsOf ctx h160 true n = opsOf ctx h160 false n)
-    (hsat : ∀ s stk al cs, executing cs = true → Sat sigOK n s →
-      exec sigOK (opsOf ctx h160 false n) ⟨s ++ stk, al, cs⟩ = some ⟨[1] :: stk, al, cs⟩) :
-    ∀ s stk al cs, executing cs = true → Sat sigOK n s →
-      exec sigOK (opsOf ctx h160 true n ++ if (typeOf ctx n).x then [.verify] else [])
+    (hsat : ∀ s stk al cs, executing cs = true → Sat E n s →
+      exec E (opsOf ctx h160 false n) ⟨s ++ stk, al, cs⟩ = some ⟨[1] :: stk, al, cs⟩) :
+    ∀ s stk al cs, executing cs = true → Sat E n s →
+      exec E (opsOf ctx h160 true n ++ if (typeOf ctx n).x then [.verify] else [])
         ⟨s ++ stk, al, cs⟩ = some ⟨stk, al, cs⟩ := by
   intro s stk al cs hc hs
   rw [hops, hx, exec_append, hsat s stk al cs hc hs]
-  simp [exec_cons_run sigOK .verify [] _ al cs rfl hc, stepExec, castToBool]
+  simp [exec_cons_run E .verify [] _ al cs rfl hc, stepExec, castToBool]
 
-theorem sound_f0 : Sound sigOK ctx h160 .f0 := by
-  refine sound_of_B sigOK ctx h160 _ rfl rfl ⟨?_, ?_, ?_⟩
+theorem sound_f0 : Sound E ctx h160 .f0 := by
+  refine sound_of_B E ctx h160 _ rfl rfl ⟨?_, ?_, ?_⟩
   · intro s stk al cs _ hs; cases hs
   · intro s stk al cs hc hs; cases hs
-    simp [opsOf, exec_cons_run sigOK .op0 [] _ al cs rfl hc, stepExec]
+    simp [opsOf, exec_cons_run E .op0 [] _ al cs rfl hc, stepExec]
   · intro s stk al cs _ hs; cases hs
 
-theorem sound_f1 : Sound sigOK ctx h160 .f1 := by
-  have hsat : ∀ s stk al cs, executing cs = true → Sat sigOK .f1 s →
-      exec sigOK (opsOf ctx h160 false .f1) ⟨s ++ stk, al, cs⟩ = some ⟨[1] :: stk, al, cs⟩ := by
+theorem sound_f1 : Sound E ctx h160 .f1 := by
+  have hsat : ∀ s stk al cs, executing cs = true → Sat E .f1 s →
+      exec E (opsOf ctx h160 false .f1) ⟨s ++ stk, al, cs⟩ = some ⟨[1] :: stk, al, cs⟩ := by
     intro s stk al cs hc hs; cases hs
-    simp [opsOf, exec_cons_run sigOK .op1 [] _ al cs rfl hc, stepExec]
-  refine sound_of_B sigOK ctx h160 _ rfl rfl ⟨hsat, ?_, bVer_of_x sigOK ctx h160 _ rfl rfl hsat⟩
+    simp [opsOf, exec_cons_run E .op1 [] _ al cs rfl hc, stepExec]
+  refine sound_of_B E ctx h160 _ rfl rfl ⟨hsat, ?_, bVer_of_x E ctx h160 _ rfl rfl hsat⟩
   intro s stk al cs _ hs; cases hs
 
-theorem sound_pk_k (hsig0 : ∀ k, sigOK k [] = false) (k : Key) : Sound sigOK ctx h160 (.pk_k k) := by
-  refine sound_of_K sigOK ctx h160 _ rfl rfl ⟨?_, ?_⟩
+theorem sound_pk_k (hsig0 : ∀ k, E.sigOK k [] = false) (k : Key) : Sound E ctx h160 (.pk_k k) := by
+  refine sound_of_K E ctx h160 _ rfl rfl ⟨?_, ?_⟩
   · intro s stk al cs hc hs; cases hs with
     | pk_k _ σ hσ =>
-      exact ⟨k, σ, hσ, by simp [opsOf, exec_cons_run sigOK (.push k) [] _ al cs rfl hc, stepExec]⟩
+      exact ⟨k, σ, hσ, by simp [opsOf, exec_cons_run E (.push k) [] _ al cs rfl hc, stepExec]⟩
   · intro s stk al cs hc hs; cases hs
-    exact ⟨k, [], hsig0 k, by simp [opsOf, exec_cons_run sigOK (.push k) [] _ al cs rfl hc, stepExec]⟩
+    exact ⟨k, [], hsig0 k, by simp [opsOf, exec_cons_run E (.push k) [] _ al cs rfl hc, stepExec]⟩
 
-theorem sound_c (x : Ms) (ht : Typed ctx (.wrap .c x)) (ih : Sound sigOK ctx h160 x) :
-    Sound sigOK ctx h160 (.wrap .c x) := by
+theorem sound_c (x : Ms) (ht : Typed ctx (.wrap .c x)) (ih : Sound E ctx h160 x) :
+    Sound E ctx h160 (.wrap .c x) := by
   obtain ⟨hK, hB, hx⟩ := ty_c ctx x ht
   obtain ⟨ks, kd⟩ := ih.2.2.1 hK
-  refine sound_of_B sigOK ctx h160 _ ht hB ⟨?_, ?_, ?_⟩
+  refine sound_of_B E ctx h160 _ ht hB ⟨?_, ?_, ?_⟩
   · intro s stk al cs hc hs
     cases hs with
     | wrap _ _ _ hs =>
       obtain ⟨k, σ, hσ, e⟩ := ks s stk al cs hc hs
-      simp [opsOf, exec_append, e, exec_cons_run sigOK .checksig [] _ al cs rfl hc, stepExec, hσ, boolBytes]
+      simp [opsOf, exec_append, e, exec_cons_run E .checksig [] _ al cs rfl hc, stepExec, hσ, boolBytes]
   · intro s stk al cs hc hs
     cases hs with
     | wrap_c _ _ hs =>
       obtain ⟨k, σ, hσ, e⟩ := kd s stk al cs hc hs
-      simp [opsOf, exec_append, e, exec_cons_run sigOK .checksig [] _ al cs rfl hc, stepExec, hσ, boolBytes]
+      simp [opsOf, exec_append, e, exec_cons_run E .checksig [] _ al cs rfl hc, stepExec, hσ, boolBytes]
   · intro s stk al cs hc hs
     cases hs with
     | wrap _ _ _ hs =>
       obtain ⟨k, σ, hσ, e⟩ := ks s stk al cs hc hs
-      simp [opsOf, hx, exec_append, e, exec_cons_run sigOK .checksigverify [] _ al cs rfl hc, stepExec, hσ]
+      simp [opsOf, hx, exec_append, e, exec_cons_run E .checksigverify [] _ al cs rfl hc, stepExec, hσ]
 
-theorem sound_v (x : Ms) (ht : Typed ctx (.wrap .v x)) (ih : Sound sigOK ctx h160 x) :
-    Sound sigOK ctx h160 (.wrap .v x) := by
+theorem sound_v (x : Ms) (ht : Typed ctx (.wrap .v x)) (ih : Sound E ctx h160 x) :
+    Sound E ctx h160 (.wrap .v x) := by
   obtain ⟨hB, hV⟩ := ty_v ctx x ht
   obtain ⟨_, _, bv⟩ := ih.1 hB
-  refine sound_of_V sigOK ctx h160 _ ht hV ?_
+  refine sound_of_V E ctx h160 _ ht hV ?_
   intro s stk al cs hc hs
   cases hs with
   | wrap _ _ _ hs => simpa [opsOf] using bv s stk al cs hc hs
 
-theorem sound_a (x : Ms) (ht : Typed ctx (.wrap .a x)) (ih : Sound sigOK ctx h160 x) :
-    Sound sigOK ctx h160 (.wrap .a x) := by
+theorem sound_a (x : Ms) (ht : Typed ctx (.wrap .a x)) (ih : Sound E ctx h160 x) :
+    Sound E ctx h160 (.wrap .a x) := by
   obtain ⟨hB, hW⟩ := ty_a ctx x ht
   obtain ⟨bs, bd, _⟩ := ih.1 hB
-  refine sound_of_W sigOK ctx h160 _ ht hW ⟨?_, ?_⟩
+  refine sound_of_W E ctx h160 _ ht hW ⟨?_, ?_⟩
   · intro top s stk al cs hc hs
     cases hs with
     | wrap _ _ _ hs =>
       refine ⟨top :: [1] :: stk, ?_, Or.inr rfl⟩
-      simp [opsOf, exec_append, exec_cons_run sigOK .toalt _ _ al cs rfl hc, stepExec,
-        bs s stk (top :: al) cs hc hs, exec_cons_run sigOK .fromalt [] _ (top :: al) cs rfl hc]
+      simp [opsOf, exec_append, exec_cons_run E .toalt _ _ al cs rfl hc, stepExec,
+        bs s stk (top :: al) cs hc hs, exec_cons_run E .fromalt [] _ (top :: al) cs rfl hc]
   · intro top s stk al cs hc hs
     cases hs with
     | wrap_a _ _ hs =>
       refine ⟨top :: [] :: stk, ?_, Or.inr rfl⟩
-      simp [opsOf, exec_append, exec_cons_run sigOK .toalt _ _ al cs rfl hc, stepExec,
-        bd s stk (top :: al) cs hc hs, exec_cons_run sigOK .fromalt [] _ (top :: al) cs rfl hc]
+      simp [opsOf, exec_append, exec_cons_run E .toalt _ _ al cs rfl hc, stepExec,
+        bd s stk (top :: al) cs hc hs, exec_cons_run E .fromalt [] _ (top :: al) cs rfl hc]
 
-theorem sound_and_v (x y : Ms) (ht : Typed ctx (.bin .and_v x y)) (ihx : Sound sigOK ctx h160 x)
-    (ihy : Sound sigOK ctx h160 y) : Sound sigOK ctx h160 (.bin .and_v x y) := by
+theorem sound_and_v (x y : Ms) (ht : Typed ctx (.bin .and_v x y)) (ihx : Sound E ctx h160 x)
+    (ihy : Sound E ctx h160 y) : Sound E ctx h160 (.bin .and_v x y) := by
   obtain ⟨hV, eB, eV, eK, ex, eW⟩ := ty_and_v ctx x y ht
   have vx := ihx.2.1 hV
   have hW : (typeOf ctx (.bin .and_v x y)).W = true → False := by
@@ -559,13 +559,13 @@ theorem sound_and_v (x y : Ms) (ht : Typed ctx (.bin .and_v x y)) (ihx : Sound s
         simp [opsOf, exec_append, this, e]
     · intro s stk al cs hc hs; cases hs
 
-theorem sound_and_b (x y : Ms) (ht : Typed ctx (.bin .and_b x y)) (ihx : Sound sigOK ctx h160 x)
-    (ihy : Sound sigOK ctx h160 y) : Sound sigOK ctx h160 (.bin .and_b x y) := by
+theorem sound_and_b (x y : Ms) (ht : Typed ctx (.bin .and_b x y)) (ihx : Sound E ctx h160 x)
+    (ihy : Sound E ctx h160 y) : Sound E ctx h160 (.bin .and_b x y) := by
   obtain ⟨hB, hW, tB, tx⟩ := ty_and_b ctx x y ht
   obtain ⟨xs, xd, _⟩ := ihx.1 hB
   obtain ⟨ws, wd⟩ := ihy.2.2.2 hW
-  have hsat : ∀ s stk al cs, executing cs = true → Sat sigOK (.bin .and_b x y) s →
-      exec sigOK (opsOf ctx h160 false (.bin .and_b x y)) ⟨s ++ stk, al, cs⟩ =
+  have hsat : ∀ s stk al cs, executing cs = true → Sat E (.bin .and_b x y) s →
+      exec E (opsOf ctx h160 false (.bin .and_b x y)) ⟨s ++ stk, al, cs⟩ =
         some ⟨[1] :: stk, al, cs⟩ := by
     intro s stk al cs hc hs
     cases hs with
@@ -575,8 +575,8 @@ theorem sound_and_b (x y : Ms) (ht : Typed ctx (.bin .and_b x y)) (ihx : Sound s
       simp only [opsOf, List.append_assoc]
       rw [exec_append, h1, Option.bind_some, exec_append, h2, Option.bind_some]
       rcases hr with rfl | rfl <;>
-        simp [exec_cons_run sigOK .booland [] _ al cs rfl hc, stepExec, numTruth, castToBool, boolBytes]
-  refine sound_of_B sigOK ctx h160 _ ht tB ⟨hsat, ?_, bVer_of_x sigOK ctx h160 _ tx rfl hsat⟩
+        simp [exec_cons_run E .booland [] _ al cs rfl hc, stepExec, numTruth, castToBool, boolBytes]
+  refine sound_of_B E ctx h160 _ ht tB ⟨hsat, ?_, bVer_of_x E ctx h160 _ tx rfl hsat⟩
   intro s stk al cs hc hs
   cases hs with
     | and_b _ _ sx sy hsx hsy =>
@@ -585,29 +585,29 @@ theorem sound_and_b (x y : Ms) (ht : Typed ctx (.bin .and_b x y)) (ihx : Sound s
       simp only [opsOf, List.append_assoc]
       rw [exec_append, h1, Option.bind_some, exec_append, h2, Option.bind_some]
       rcases hr with rfl | rfl <;>
-        simp [exec_cons_run sigOK .booland [] _ al cs rfl hc, stepExec, numTruth, castToBool, boolBytes]
+        simp [exec_cons_run E .booland [] _ al cs rfl hc, stepExec, numTruth, castToBool, boolBytes]
     | and_b_l _ _ sx sy hsx hsy =>
       have h1 := xs sx (sy ++ stk) al cs hc hsx
       obtain ⟨r, h2, hr⟩ := wd [1] sy stk al cs hc hsy
       simp only [opsOf, List.append_assoc]
       rw [exec_append, h1, Option.bind_some, exec_append, h2, Option.bind_some]
       rcases hr with rfl | rfl <;>
-        simp [exec_cons_run sigOK .booland [] _ al cs rfl hc, stepExec, numTruth, castToBool, boolBytes]
+        simp [exec_cons_run E .booland [] _ al cs rfl hc, stepExec, numTruth, castToBool, boolBytes]
     | and_b_r _ _ sx sy hsx hsy =>
       have h1 := xd sx (sy ++ stk) al cs hc hsx
       obtain ⟨r, h2, hr⟩ := ws [] sy stk al cs hc hsy
       simp only [opsOf, List.append_assoc]
       rw [exec_append, h1, Option.bind_some, exec_append, h2, Option.bind_some]
       rcases hr with rfl | rfl <;>
-        simp [exec_cons_run sigOK .booland [] _ al cs rfl hc, stepExec, numTruth, castToBool, boolBytes]
+        simp [exec_cons_run E .booland [] _ al cs rfl hc, stepExec, numTruth, castToBool, boolBytes]
 
-theorem sound_or_b (x y : Ms) (ht : Typed ctx (.bin .or_b x y)) (ihx : Sound sigOK ctx h160 x)
-    (ihy : Sound sigOK ctx h160 y) : Sound sigOK ctx h160 (.bin .or_b x y) := by
+theorem sound_or_b (x y : Ms) (ht : Typed ctx (.bin .or_b x y)) (ihx : Sound E ctx h160 x)
+    (ihy : Sound E ctx h160 y) : Sound E ctx h160 (.bin .or_b x y) := by
   obtain ⟨hB, hW, tB, tx⟩ := ty_or_b ctx x y ht
   obtain ⟨xs, xd, _⟩ := ihx.1 hB
   obtain ⟨ws, wd⟩ := ihy.2.2.2 hW
-  have hsat : ∀ s stk al cs, executing cs = true → Sat sigOK (.bin .or_b x y) s →
-      exec sigOK (opsOf ctx h160 false (.bin .or_b x y)) ⟨s ++ stk, al, cs⟩ =
+  have hsat : ∀ s stk al cs, executing cs = true → Sat E (.bin .or_b x y) s →
+      exec E (opsOf ctx h160 false (.bin .or_b x y)) ⟨s ++ stk, al, cs⟩ =
         some ⟨[1] :: stk, al, cs⟩ := by
     intro s stk al cs hc hs
     cases hs with
@@ -617,22 +617,22 @@ theorem sound_or_b (x y : Ms) (ht : Typed ctx (.bin .or_b x y)) (ihx : Sound sig
       simp only [opsOf, List.append_assoc]
       rw [exec_append, h1, Option.bind_some, exec_append, h2, Option.bind_some]
       rcases hr with rfl | rfl <;>
-        simp [exec_cons_run sigOK .boolor [] _ al cs rfl hc, stepExec, numTruth, castToBool, boolBytes]
+        simp [exec_cons_run E .boolor [] _ al cs rfl hc, stepExec, numTruth, castToBool, boolBytes]
     | or_b_r _ _ sx sy hsx hsy =>
       have h1 := xd sx (sy ++ stk) al cs hc hsx
       obtain ⟨r, h2, hr⟩ := ws [] sy stk al cs hc hsy
       simp only [opsOf, List.append_assoc]
       rw [exec_append, h1, Option.bind_some, exec_append, h2, Option.bind_some]
       rcases hr with rfl | rfl <;>
-        simp [exec_cons_run sigOK .boolor [] _ al cs rfl hc, stepExec, numTruth, castToBool, boolBytes]
+        simp [exec_cons_run E .boolor [] _ al cs rfl hc, stepExec, numTruth, castToBool, boolBytes]
     | or_b_both _ _ sx sy hsx hsy =>
       have h1 := xs sx (sy ++ stk) al cs hc hsx
       obtain ⟨r, h2, hr⟩ := ws [1] sy stk al cs hc hsy
       simp only [opsOf, List.append_assoc]
       rw [exec_append, h1, Option.bind_some, exec_append, h2, Option.bind_some]
       rcases hr with rfl | rfl <;>
-        simp [exec_cons_run sigOK .boolor [] _ al cs rfl hc, stepExec, numTruth, castToBool, boolBytes]
-  refine sound_of_B sigOK ctx h160 _ ht tB ⟨hsat, ?_, bVer_of_x sigOK ctx h160 _ tx rfl hsat⟩
+        simp [exec_cons_run E .boolor [] _ al cs rfl hc, stepExec, numTruth, castToBool, boolBytes]
+  refine sound_of_B E ctx h160 _ ht tB ⟨hsat, ?_, bVer_of_x E ctx h160 _ tx rfl hsat⟩
   intro s stk al cs hc hs
   cases hs with
     | or_b _ _ sx sy hsx hsy =>
@@ -641,37 +641,37 @@ theorem sound_or_b (x y : Ms) (ht : Typed ctx (.bin .or_b x y)) (ihx : Sound sig
       simp only [opsOf, List.append_assoc]
       rw [exec_append, h1, Option.bind_some, exec_append, h2, Option.bind_some]
       rcases hr with rfl | rfl <;>
-        simp [exec_cons_run sigOK .boolor [] _ al cs rfl hc, stepExec, numTruth, castToBool, boolBytes]
+        simp [exec_cons_run E .boolor [] _ al cs rfl hc, stepExec, numTruth, castToBool, boolBytes]
 
 theorem exec_or_i_l (x y : Ms) (v : Bool) (hy : inS1 y = true) (st st' al al' : List Bytes)
     (cs : List Bool) (hc : executing cs = true)
-    (hx : exec sigOK (opsOf ctx h160 false x) ⟨st, al, true :: cs⟩ = some ⟨st', al', true :: cs⟩) :
-    exec sigOK (opsOf ctx h160 v (.bin .or_i x y)) ⟨[1] :: st, al, cs⟩ = some ⟨st', al', cs⟩ := by
-  have e0 : step sigOK .opif ⟨[1] :: st, al, cs⟩ = some ⟨st, al, true :: cs⟩ := by
+    (hx : exec E (opsOf ctx h160 false x) ⟨st, al, true :: cs⟩ = some ⟨st', al', true :: cs⟩) :
+    exec E (opsOf ctx h160 v (.bin .or_i x y)) ⟨[1] :: st, al, cs⟩ = some ⟨st', al', cs⟩ := by
+  have e0 : step E .opif ⟨[1] :: st, al, cs⟩ = some ⟨st, al, true :: cs⟩ := by
     simp [step, hc, castToBool]
-  have e1 : step sigOK .opelse ⟨st', al', true :: cs⟩ = some ⟨st', al', false :: cs⟩ := by
+  have e1 : step E .opelse ⟨st', al', true :: cs⟩ = some ⟨st', al', false :: cs⟩ := by
     simp [step]
-  have e2 := exec_skip sigOK ctx h160 y false st' al' (false :: cs) hy (by simp [executing_cons])
-  have e3 : step sigOK .endif ⟨st', al', false :: cs⟩ = some ⟨st', al', cs⟩ := by simp [step]
+  have e2 := exec_skip E ctx h160 y false st' al' (false :: cs) hy (by simp [executing_cons])
+  have e3 : step E .endif ⟨st', al', false :: cs⟩ = some ⟨st', al', cs⟩ := by simp [step]
   simp only [opsOf, List.append_assoc, List.cons_append, List.nil_append,
     exec, e0, Option.bind_some, exec_append, hx, e1, e2, e3]
 
 theorem exec_or_i_r (x y : Ms) (v : Bool) (hx : inS1 x = true) (st st' al al' : List Bytes)
     (cs : List Bool) (hc : executing cs = true)
-    (hy : exec sigOK (opsOf ctx h160 false y) ⟨st, al, true :: cs⟩ = some ⟨st', al', true :: cs⟩) :
-    exec sigOK (opsOf ctx h160 v (.bin .or_i x y)) ⟨[] :: st, al, cs⟩ = some ⟨st', al', cs⟩ := by
-  have e0 : step sigOK .opif ⟨[] :: st, al, cs⟩ = some ⟨st, al, false :: cs⟩ := by
+    (hy : exec E (opsOf ctx h160 false y) ⟨st, al, true :: cs⟩ = some ⟨st', al', true :: cs⟩) :
+    exec E (opsOf ctx h160 v (.bin .or_i x y)) ⟨[] :: st, al, cs⟩ = some ⟨st', al', cs⟩ := by
+  have e0 : step E .opif ⟨[] :: st, al, cs⟩ = some ⟨st, al, false :: cs⟩ := by
     simp [step, hc, castToBool]
-  have e1 : step sigOK .opelse ⟨st, al, false :: cs⟩ = some ⟨st, al, true :: cs⟩ := by
+  have e1 : step E .opelse ⟨st, al, false :: cs⟩ = some ⟨st, al, true :: cs⟩ := by
     simp [step]
-  have e2 := exec_skip sigOK ctx h160 x false st al (false :: cs) hx (by simp [executing_cons])
-  have e3 : step sigOK .endif ⟨st', al', true :: cs⟩ = some ⟨st', al', cs⟩ := by simp [step]
+  have e2 := exec_skip E ctx h160 x false st al (false :: cs) hx (by simp [executing_cons])
+  have e3 : step E .endif ⟨st', al', true :: cs⟩ = some ⟨st', al', cs⟩ := by simp [step]
   simp only [opsOf, List.append_assoc, List.cons_append, List.nil_append,
     exec, e0, Option.bind_some, exec_append, hy, e1, e2, e3]
 
 theorem sound_or_i (x y : Ms) (ht : Typed ctx (.bin .or_i x y)) (hix : inS1 x = true)
-    (hiy : inS1 y = true) (ihx : Sound sigOK ctx h160 x) (ihy : Sound sigOK ctx h160 y) :
-    Sound sigOK ctx h160 (.bin .or_i x y) := by
+    (hiy : inS1 y = true) (ihx : Sound E ctx h160 x) (ihy : Sound E ctx h160 y) :
+    Sound E ctx h160 (.bin .or_i x y) := by
   obtain ⟨eB, eV, eK, eW, ex⟩ := ty_or_i ctx x y ht
   have hcs : ∀ cs, executing cs = true → executing (true :: cs) = true := by
     intro cs h; simp [executing_cons, h]
@@ -680,22 +680,22 @@ theorem sound_or_i (x y : Ms) (ht : Typed ctx (.bin .or_i x y)) (hix : inS1 x = 
     rw [eB, Bool.and_eq_true] at hB
     obtain ⟨xs, xd, _⟩ := ihx.1 hB.1
     obtain ⟨ys, yd, _⟩ := ihy.1 hB.2
-    have hsat : ∀ s stk al cs, executing cs = true → Sat sigOK (.bin .or_i x y) s →
-        exec sigOK (opsOf ctx h160 false (.bin .or_i x y)) ⟨s ++ stk, al, cs⟩ =
+    have hsat : ∀ s stk al cs, executing cs = true → Sat E (.bin .or_i x y) s →
+        exec E (opsOf ctx h160 false (.bin .or_i x y)) ⟨s ++ stk, al, cs⟩ =
           some ⟨[1] :: stk, al, cs⟩ := by
       intro s stk al cs hc hs
       cases hs with
       | or_i_l _ _ sx hsx =>
-        exact exec_or_i_l sigOK ctx h160 x y false hiy _ _ al al cs hc (xs sx stk al _ (hcs cs hc) hsx)
+        exact exec_or_i_l E ctx h160 x y false hiy _ _ al al cs hc (xs sx stk al _ (hcs cs hc) hsx)
       | or_i_r _ _ sy hsy =>
-        exact exec_or_i_r sigOK ctx h160 x y false hix _ _ al al cs hc (ys sy stk al _ (hcs cs hc) hsy)
-    refine ⟨hsat, ?_, bVer_of_x sigOK ctx h160 _ ex rfl hsat⟩
+        exact exec_or_i_r E ctx h160 x y false hix _ _ al al cs hc (ys sy stk al _ (hcs cs hc) hsy)
+    refine ⟨hsat, ?_, bVer_of_x E ctx h160 _ ex rfl hsat⟩
     intro s stk al cs hc hs
     cases hs with
     | or_i_l _ _ sx hsx =>
-      exact exec_or_i_l sigOK ctx h160 x y false hiy _ _ al al cs hc (xd sx stk al _ (hcs cs hc) hsx)
+      exact exec_or_i_l E ctx h160 x y false hiy _ _ al al cs hc (xd sx stk al _ (hcs cs hc) hsx)
     | or_i_r _ _ sy hsy =>
-      exact exec_or_i_r sigOK ctx h160 x y false hix _ _ al al cs hc (yd sy stk al _ (hcs cs hc) hsy)
+      exact exec_or_i_r E ctx h160 x y false hix _ _ al al cs hc (yd sy stk al _ (hcs cs hc) hsy)
   · intro hV
     rw [eV, Bool.and_eq_true] at hV
     have vx := ihx.2.1 hV.1
@@ -703,9 +703,9 @@ theorem sound_or_i (x y : Ms) (ht : Typed ctx (.bin .or_i x y)) (hix : inS1 x = 
     intro s stk al cs hc hs
     cases hs with
     | or_i_l _ _ sx hsx =>
-      exact exec_or_i_l sigOK ctx h160 x y false hiy _ _ al al cs hc (vx sx stk al _ (hcs cs hc) hsx)
+      exact exec_or_i_l E ctx h160 x y false hiy _ _ al al cs hc (vx sx stk al _ (hcs cs hc) hsx)
     | or_i_r _ _ sy hsy =>
-      exact exec_or_i_r sigOK ctx h160 x y false hix _ _ al al cs hc (vy sy stk al _ (hcs cs hc) hsy)
+      exact exec_or_i_r E ctx h160 x y false hix _ _ al al cs hc (vy sy stk al _ (hcs cs hc) hsy)
   · intro hK
     rw [eK, Bool.and_eq_true] at hK
     obtain ⟨xs, xd⟩ := ihx.2.2.1 hK.1
@@ -715,69 +715,69 @@ theorem sound_or_i (x y : Ms) (ht : Typed ctx (.bin .or_i x y)) (hix : inS1 x = 
       cases hs with
       | or_i_l _ _ sx hsx =>
         obtain ⟨k, σ, hσ, e⟩ := xs sx stk al _ (hcs cs hc) hsx
-        exact ⟨k, σ, hσ, exec_or_i_l sigOK ctx h160 x y false hiy _ _ al al cs hc e⟩
+        exact ⟨k, σ, hσ, exec_or_i_l E ctx h160 x y false hiy _ _ al al cs hc e⟩
       | or_i_r _ _ sy hsy =>
         obtain ⟨k, σ, hσ, e⟩ := ys sy stk al _ (hcs cs hc) hsy
-        exact ⟨k, σ, hσ, exec_or_i_r sigOK ctx h160 x y false hix _ _ al al cs hc e⟩
+        exact ⟨k, σ, hσ, exec_or_i_r E ctx h160 x y false hix _ _ al al cs hc e⟩
     · intro s stk al cs hc hs
       cases hs with
       | or_i_l _ _ sx hsx =>
         obtain ⟨k, σ, hσ, e⟩ := xd sx stk al _ (hcs cs hc) hsx
-        exact ⟨k, σ, hσ, exec_or_i_l sigOK ctx h160 x y false hiy _ _ al al cs hc e⟩
+        exact ⟨k, σ, hσ, exec_or_i_l E ctx h160 x y false hiy _ _ al al cs hc e⟩
       | or_i_r _ _ sy hsy =>
         obtain ⟨k, σ, hσ, e⟩ := yd sy stk al _ (hcs cs hc) hsy
-        exact ⟨k, σ, hσ, exec_or_i_r sigOK ctx h160 x y false hix _ _ al al cs hc e⟩
+        exact ⟨k, σ, hσ, exec_or_i_r E ctx h160 x y false hix _ _ al al cs hc e⟩
 
-theorem sound_n (x : Ms) (ht : Typed ctx (.wrap .n x)) (ih : Sound sigOK ctx h160 x) :
-    Sound sigOK ctx h160 (.wrap .n x) := by
+theorem sound_n (x : Ms) (ht : Typed ctx (.wrap .n x)) (ih : Sound E ctx h160 x) :
+    Sound E ctx h160 (.wrap .n x) := by
   obtain ⟨hB, tB, tx⟩ := ty_n ctx x ht
   obtain ⟨bs, bd, _⟩ := ih.1 hB
-  have hsat : ∀ s stk al cs, executing cs = true → Sat sigOK (.wrap .n x) s →
-      exec sigOK (opsOf ctx h160 false (.wrap .n x)) ⟨s ++ stk, al, cs⟩ =
+  have hsat : ∀ s stk al cs, executing cs = true → Sat E (.wrap .n x) s →
+      exec E (opsOf ctx h160 false (.wrap .n x)) ⟨s ++ stk, al, cs⟩ =
         some ⟨[1] :: stk, al, cs⟩ := by
     intro s stk al cs hc hs
     cases hs with
     | wrap _ _ _ hs =>
       simp [opsOf, exec_append, bs s stk al cs hc hs,
-        exec_cons_run sigOK .zeronotequal [] _ al cs rfl hc, stepExec, numTruth, castToBool, boolBytes]
-  refine sound_of_B sigOK ctx h160 _ ht tB ⟨hsat, ?_, bVer_of_x sigOK ctx h160 _ tx rfl hsat⟩
+        exec_cons_run E .zeronotequal [] _ al cs rfl hc, stepExec, numTruth, castToBool, boolBytes]
+  refine sound_of_B E ctx h160 _ ht tB ⟨hsat, ?_, bVer_of_x E ctx h160 _ tx rfl hsat⟩
   intro s stk al cs hc hs
   cases hs with
   | wrap_n _ _ hs =>
     simp [opsOf, exec_append, bd s stk al cs hc hs,
-      exec_cons_run sigOK .zeronotequal [] _ al cs rfl hc, stepExec, numTruth, castToBool, boolBytes]
+      exec_cons_run E .zeronotequal [] _ al cs rfl hc, stepExec, numTruth, castToBool, boolBytes]
 
 /-- `NOTIF [Y] ENDIF` after a true value: Y is skipped. -/
 theorem notif_tail_l (y : Ms) (hy : inS1 y = true) (st al : List Bytes) (cs : List Bool)
     (hc : executing cs = true) :
-    exec sigOK ([.notif] ++ opsOf ctx h160 false y ++ [.endif]) ⟨[1] :: st, al, cs⟩ =
+    exec E ([.notif] ++ opsOf ctx h160 false y ++ [.endif]) ⟨[1] :: st, al, cs⟩ =
       some ⟨st, al, cs⟩ := by
-  have e0 : step sigOK .notif ⟨[1] :: st, al, cs⟩ = some ⟨st, al, false :: cs⟩ := by
+  have e0 : step E .notif ⟨[1] :: st, al, cs⟩ = some ⟨st, al, false :: cs⟩ := by
     simp [step, hc, castToBool]
-  have e2 := exec_skip sigOK ctx h160 y false st al (false :: cs) hy (by simp [executing_cons])
-  have e3 : step sigOK .endif ⟨st, al, false :: cs⟩ = some ⟨st, al, cs⟩ := by simp [step]
+  have e2 := exec_skip E ctx h160 y false st al (false :: cs) hy (by simp [executing_cons])
+  have e3 : step E .endif ⟨st, al, false :: cs⟩ = some ⟨st, al, cs⟩ := by simp [step]
   simp only [List.append_assoc, List.cons_append, List.nil_append, exec, e0, Option.bind_some,
     exec_append, e2, e3]
 
 /-- `NOTIF [Y] ENDIF` after the empty vector: Y runs. -/
 theorem notif_tail_r (y : Ms) (st st' al al' : List Bytes) (cs : List Bool)
     (hc : executing cs = true)
-    (hy : exec sigOK (opsOf ctx h160 false y) ⟨st, al, true :: cs⟩ = some ⟨st', al', true :: cs⟩) :
-    exec sigOK ([.notif] ++ opsOf ctx h160 false y ++ [.endif]) ⟨[] :: st, al, cs⟩ =
+    (hy : exec E (opsOf ctx h160 false y) ⟨st, al, true :: cs⟩ = some ⟨st', al', true :: cs⟩) :
+    exec E ([.notif] ++ opsOf ctx h160 false y ++ [.endif]) ⟨[] :: st, al, cs⟩ =
       some ⟨st', al', cs⟩ := by
-  have e0 : step sigOK .notif ⟨[] :: st, al, cs⟩ = some ⟨st, al, true :: cs⟩ := by
+  have e0 : step E .notif ⟨[] :: st, al, cs⟩ = some ⟨st, al, true :: cs⟩ := by
     simp [step, hc, castToBool]
-  have e3 : step sigOK .endif ⟨st', al', true :: cs⟩ = some ⟨st', al', cs⟩ := by simp [step]
+  have e3 : step E .endif ⟨st', al', true :: cs⟩ = some ⟨st', al', cs⟩ := by simp [step]
   simp only [List.append_assoc, List.cons_append, List.nil_append, exec, e0, Option.bind_some,
     exec_append, hy, e3]
 
 theorem sound_or_c (x y : Ms) (ht : Typed ctx (.bin .or_c x y)) (hiy : inS1 y = true)
-    (ihx : Sound sigOK ctx h160 x) (ihy : Sound sigOK ctx h160 y) :
-    Sound sigOK ctx h160 (.bin .or_c x y) := by
+    (ihx : Sound E ctx h160 x) (ihy : Sound E ctx h160 y) :
+    Sound E ctx h160 (.bin .or_c x y) := by
   obtain ⟨hB, hV, tV⟩ := ty_or_c ctx x y ht
   obtain ⟨xs, xd, _⟩ := ihx.1 hB
   have vy := ihy.2.1 hV
-  refine sound_of_V sigOK ctx h160 _ ht tV ?_
+  refine sound_of_V E ctx h160 _ ht tV ?_
   intro s stk al cs hc hs
   have hops : opsOf ctx h160 false (.bin .or_c x y) =
       opsOf ctx h160 false x ++ ([.notif] ++ opsOf ctx h160 false y ++ [.endif]) := by
@@ -786,15 +786,15 @@ theorem sound_or_c (x y : Ms) (ht : Typed ctx (.bin .or_c x y)) (hiy : inS1 y = 
   cases hs with
   | or_c_l _ _ _ hsx =>
     rw [xs _ stk al cs hc hsx, Option.bind_some]
-    exact notif_tail_l sigOK ctx h160 y hiy stk al cs hc
+    exact notif_tail_l E ctx h160 y hiy stk al cs hc
   | or_c_r _ _ sx sy hsx hsy =>
     rw [List.append_assoc, xd sx (sy ++ stk) al cs hc hsx, Option.bind_some]
-    exact notif_tail_r sigOK ctx h160 y _ _ al al cs hc
+    exact notif_tail_r E ctx h160 y _ _ al al cs hc
       (vy sy stk al _ (by simp [executing_cons, hc]) hsy)
 
 theorem sound_or_d (x y : Ms) (ht : Typed ctx (.bin .or_d x y)) (hiy : inS1 y = true)
-    (ihx : Sound sigOK ctx h160 x) (ihy : Sound sigOK ctx h160 y) :
-    Sound sigOK ctx h160 (.bin .or_d x y) := by
+    (ihx : Sound E ctx h160 x) (ihy : Sound E ctx h160 y) :
+    Sound E ctx h160 (.bin .or_d x y) := by
   obtain ⟨hB, hB', tB, tx⟩ := ty_or_d ctx x y ht
   obtain ⟨xs, xd, _⟩ := ihx.1 hB
   obtain ⟨ys, yd, _⟩ := ihy.1 hB'
@@ -802,24 +802,24 @@ theorem sound_or_d (x y : Ms) (ht : Typed ctx (.bin .or_d x y)) (hiy : inS1 y = 
       opsOf ctx h160 false x ++ ([.ifdup] ++ ([.notif] ++ opsOf ctx h160 false y ++ [.endif])) := by
     simp [opsOf]
   have dupT : ∀ stk al cs, executing cs = true →
-      exec sigOK ([.ifdup] ++ ([.notif] ++ opsOf ctx h160 false y ++ [.endif])) ⟨[1] :: stk, al, cs⟩ =
+      exec E ([.ifdup] ++ ([.notif] ++ opsOf ctx h160 false y ++ [.endif])) ⟨[1] :: stk, al, cs⟩ =
         some ⟨[1] :: stk, al, cs⟩ := by
     intro stk al cs hc
-    rw [List.singleton_append, exec_cons_run sigOK .ifdup _ _ al cs rfl hc]
+    rw [List.singleton_append, exec_cons_run E .ifdup _ _ al cs rfl hc]
     simp only [stepExec, castToBool]
-    exact notif_tail_l sigOK ctx h160 y hiy ([1] :: stk) al cs hc
+    exact notif_tail_l E ctx h160 y hiy ([1] :: stk) al cs hc
   have dupF : ∀ stk st' al cs, executing cs = true →
-      exec sigOK (opsOf ctx h160 false y) ⟨stk, al, true :: cs⟩ = some ⟨st', al, true :: cs⟩ →
-      exec sigOK ([.ifdup] ++ ([.notif] ++ opsOf ctx h160 false y ++ [.endif])) ⟨[] :: stk, al, cs⟩ =
+      exec E (opsOf ctx h160 false y) ⟨stk, al, true :: cs⟩ = some ⟨st', al, true :: cs⟩ →
+      exec E ([.ifdup] ++ ([.notif] ++ opsOf ctx h160 false y ++ [.endif])) ⟨[] :: stk, al, cs⟩ =
         some ⟨st', al, cs⟩ := by
     intro stk st' al cs hc hy
-    rw [List.singleton_append, exec_cons_run sigOK .ifdup _ _ al cs rfl hc]
+    rw [List.singleton_append, exec_cons_run E .ifdup _ _ al cs rfl hc]
     simp only [stepExec, castToBool]
-    exact notif_tail_r sigOK ctx h160 y stk st' al al cs hc hy
+    exact notif_tail_r E ctx h160 y stk st' al al cs hc hy
   have hcs : ∀ cs, executing cs = true → executing (true :: cs) = true := by
     intro cs h; simp [executing_cons, h]
-  have hsat : ∀ s stk al cs, executing cs = true → Sat sigOK (.bin .or_d x y) s →
-      exec sigOK (opsOf ctx h160 false (.bin .or_d x y)) ⟨s ++ stk, al, cs⟩ =
+  have hsat : ∀ s stk al cs, executing cs = true → Sat E (.bin .or_d x y) s →
+      exec E (opsOf ctx h160 false (.bin .or_d x y)) ⟨s ++ stk, al, cs⟩ =
         some ⟨[1] :: stk, al, cs⟩ := by
     intro s stk al cs hc hs
     rw [hops, exec_append]
@@ -830,7 +830,7 @@ theorem sound_or_d (x y : Ms) (ht : Typed ctx (.bin .or_d x y)) (hiy : inS1 y = 
     | or_d_r _ _ sx sy hsx hsy =>
       rw [List.append_assoc, xd sx (sy ++ stk) al cs hc hsx, Option.bind_some]
       exact dupF _ _ al cs hc (ys sy stk al _ (hcs cs hc) hsy)
-  refine sound_of_B sigOK ctx h160 _ ht tB ⟨hsat, ?_, bVer_of_x sigOK ctx h160 _ tx rfl hsat⟩
+  refine sound_of_B E ctx h160 _ ht tB ⟨hsat, ?_, bVer_of_x E ctx h160 _ tx rfl hsat⟩
   intro s stk al cs hc hs
   rw [hops, exec_append]
   cases hs with
@@ -841,35 +841,35 @@ theorem sound_or_d (x y : Ms) (ht : Typed ctx (.bin .or_d x y)) (hiy : inS1 y = 
 /-- `NOTIF [Z] ELSE [Y] ENDIF` after a true value: Y runs, Z is skipped. -/
 theorem andor_tail_l (y z : Ms) (hz : inS1 z = true) (st st' al al' : List Bytes) (cs : List Bool)
     (hc : executing cs = true)
-    (hy : exec sigOK (opsOf ctx h160 false y) ⟨st, al, true :: cs⟩ = some ⟨st', al', true :: cs⟩) :
-    exec sigOK ([.notif] ++ opsOf ctx h160 false z ++ [.opelse] ++ opsOf ctx h160 false y ++ [.endif])
+    (hy : exec E (opsOf ctx h160 false y) ⟨st, al, true :: cs⟩ = some ⟨st', al', true :: cs⟩) :
+    exec E ([.notif] ++ opsOf ctx h160 false z ++ [.opelse] ++ opsOf ctx h160 false y ++ [.endif])
       ⟨[1] :: st, al, cs⟩ = some ⟨st', al', cs⟩ := by
-  have e0 : step sigOK .notif ⟨[1] :: st, al, cs⟩ = some ⟨st, al, false :: cs⟩ := by
+  have e0 : step E .notif ⟨[1] :: st, al, cs⟩ = some ⟨st, al, false :: cs⟩ := by
     simp [step, hc, castToBool]
-  have e1 := exec_skip sigOK ctx h160 z false st al (false :: cs) hz (by simp [executing_cons])
-  have e2 : step sigOK .opelse ⟨st, al, false :: cs⟩ = some ⟨st, al, true :: cs⟩ := by simp [step]
-  have e3 : step sigOK .endif ⟨st', al', true :: cs⟩ = some ⟨st', al', cs⟩ := by simp [step]
+  have e1 := exec_skip E ctx h160 z false st al (false :: cs) hz (by simp [executing_cons])
+  have e2 : step E .opelse ⟨st, al, false :: cs⟩ = some ⟨st, al, true :: cs⟩ := by simp [step]
+  have e3 : step E .endif ⟨st', al', true :: cs⟩ = some ⟨st', al', cs⟩ := by simp [step]
   simp only [List.append_assoc, List.cons_append, List.nil_append, exec, e0, Option.bind_some,
     exec_append, e1, e2, hy, e3]
 
 /-- `NOTIF [Z] ELSE [Y] ENDIF` after the empty vector: Z runs, Y is skipped. -/
 theorem andor_tail_r (y z : Ms) (hy : inS1 y = true) (st st' al al' : List Bytes) (cs : List Bool)
     (hc : executing cs = true)
-    (hz : exec sigOK (opsOf ctx h160 false z) ⟨st, al, true :: cs⟩ = some ⟨st', al', true :: cs⟩) :
-    exec sigOK ([.notif] ++ opsOf ctx h160 false z ++ [.opelse] ++ opsOf ctx h160 false y ++ [.endif])
+    (hz : exec E (opsOf ctx h160 false z) ⟨st, al, true :: cs⟩ = some ⟨st', al', true :: cs⟩) :
+    exec E ([.notif] ++ opsOf ctx h160 false z ++ [.opelse] ++ opsOf ctx h160 false y ++ [.endif])
       ⟨[] :: st, al, cs⟩ = some ⟨st', al', cs⟩ := by
-  have e0 : step sigOK .notif ⟨[] :: st, al, cs⟩ = some ⟨st, al, true :: cs⟩ := by
+  have e0 : step E .notif ⟨[] :: st, al, cs⟩ = some ⟨st, al, true :: cs⟩ := by
     simp [step, hc, castToBool]
-  have e2 : step sigOK .opelse ⟨st', al', true :: cs⟩ = some ⟨st', al', false :: cs⟩ := by
+  have e2 : step E .opelse ⟨st', al', true :: cs⟩ = some ⟨st', al', false :: cs⟩ := by
     simp [step]
-  have e1 := exec_skip sigOK ctx h160 y false st' al' (false :: cs) hy (by simp [executing_cons])
-  have e3 : step sigOK .endif ⟨st', al', false :: cs⟩ = some ⟨st', al', cs⟩ := by simp [step]
+  have e1 := exec_skip E ctx h160 y false st' al' (false :: cs) hy (by simp [executing_cons])
+  have e3 : step E .endif ⟨st', al', false :: cs⟩ = some ⟨st', al', cs⟩ := by simp [step]
   simp only [List.append_assoc, List.cons_append, List.nil_append, exec, e0, Option.bind_some,
     exec_append, hz, e2, e1, e3]
 
 theorem sound_andor (x y z : Ms) (ht : Typed ctx (.andor x y z)) (hiy : inS1 y = true)
-    (hiz : inS1 z = true) (ihx : Sound sigOK ctx h160 x) (ihy : Sound sigOK ctx h160 y)
-    (ihz : Sound sigOK ctx h160 z) : Sound sigOK ctx h160 (.andor x y z) := by
+    (hiz : inS1 z = true) (ihx : Sound E ctx h160 x) (ihy : Sound E ctx h160 y)
+    (ihz : Sound E ctx h160 z) : Sound E ctx h160 (.andor x y z) := by
   obtain ⟨hB, eB, eV, eK, eW, ex⟩ := ty_andor ctx x y z ht
   obtain ⟨xs, xd, _⟩ := ihx.1 hB
   have hops : opsOf ctx h160 false (.andor x y z) = opsOf ctx h160 false x ++
@@ -878,33 +878,33 @@ theorem sound_andor (x y z : Ms) (ht : Typed ctx (.andor x y z)) (hiy : inS1 y =
   have hcs : ∀ cs, executing cs = true → executing (true :: cs) = true := by
     intro cs h; simp [executing_cons, h]
   -- the two ways through: X satisfied then Y; X dissatisfied then Z
-  have viaY : ∀ sx sy stk st' al cs, executing cs = true → Sat sigOK x sx →
-      exec sigOK (opsOf ctx h160 false y) ⟨sy ++ stk, al, true :: cs⟩ = some ⟨st', al, true :: cs⟩ →
-      exec sigOK (opsOf ctx h160 false (.andor x y z)) ⟨(sx ++ sy) ++ stk, al, cs⟩ =
+  have viaY : ∀ sx sy stk st' al cs, executing cs = true → Sat E x sx →
+      exec E (opsOf ctx h160 false y) ⟨sy ++ stk, al, true :: cs⟩ = some ⟨st', al, true :: cs⟩ →
+      exec E (opsOf ctx h160 false (.andor x y z)) ⟨(sx ++ sy) ++ stk, al, cs⟩ =
         some ⟨st', al, cs⟩ := by
     intro sx sy stk st' al cs hc hsx hy
     rw [hops, exec_append, List.append_assoc, xs sx (sy ++ stk) al cs hc hsx, Option.bind_some]
-    exact andor_tail_l sigOK ctx h160 y z hiz _ _ al al cs hc hy
-  have viaZ : ∀ sx sz stk st' al cs, executing cs = true → Dsat sigOK x sx →
-      exec sigOK (opsOf ctx h160 false z) ⟨sz ++ stk, al, true :: cs⟩ = some ⟨st', al, true :: cs⟩ →
-      exec sigOK (opsOf ctx h160 false (.andor x y z)) ⟨(sx ++ sz) ++ stk, al, cs⟩ =
+    exact andor_tail_l E ctx h160 y z hiz _ _ al al cs hc hy
+  have viaZ : ∀ sx sz stk st' al cs, executing cs = true → Dsat E x sx →
+      exec E (opsOf ctx h160 false z) ⟨sz ++ stk, al, true :: cs⟩ = some ⟨st', al, true :: cs⟩ →
+      exec E (opsOf ctx h160 false (.andor x y z)) ⟨(sx ++ sz) ++ stk, al, cs⟩ =
         some ⟨st', al, cs⟩ := by
     intro sx sz stk st' al cs hc hsx hz
     rw [hops, exec_append, List.append_assoc, xd sx (sz ++ stk) al cs hc hsx, Option.bind_some]
-    exact andor_tail_r sigOK ctx h160 y z hiy _ _ al al cs hc hz
+    exact andor_tail_r E ctx h160 y z hiy _ _ al al cs hc hz
   refine ⟨?_, ?_, ?_, fun h => by rw [eW] at h; cases h⟩
   · intro hB'
     rw [eB, Bool.and_eq_true] at hB'
     obtain ⟨ys, yd, _⟩ := ihy.1 hB'.1
     obtain ⟨zs, zd, _⟩ := ihz.1 hB'.2
-    have hsat : ∀ s stk al cs, executing cs = true → Sat sigOK (.andor x y z) s →
-        exec sigOK (opsOf ctx h160 false (.andor x y z)) ⟨s ++ stk, al, cs⟩ =
+    have hsat : ∀ s stk al cs, executing cs = true → Sat E (.andor x y z) s →
+        exec E (opsOf ctx h160 false (.andor x y z)) ⟨s ++ stk, al, cs⟩ =
           some ⟨[1] :: stk, al, cs⟩ := by
       intro s stk al cs hc hs
       cases hs with
       | andor_l _ _ _ sx sy hsx hsy => exact viaY sx sy stk _ al cs hc hsx (ys sy stk al _ (hcs cs hc) hsy)
       | andor_r _ _ _ sx sz hsx hsz => exact viaZ sx sz stk _ al cs hc hsx (zs sz stk al _ (hcs cs hc) hsz)
-    refine ⟨hsat, ?_, bVer_of_x sigOK ctx h160 _ ex rfl hsat⟩
+    refine ⟨hsat, ?_, bVer_of_x E ctx h160 _ ex rfl hsat⟩
     intro s stk al cs hc hs
     cases hs with
     | andor _ _ _ sx sz hsx hsz => exact viaZ sx sz stk _ al cs hc hsx (zd sz stk al _ (hcs cs hc) hsz)
@@ -940,34 +940,34 @@ theorem sound_andor (x y z : Ms) (ht : Typed ctx (.andor x y z)) (hiy : inS1 y =
         exact ⟨k, σ, hσ, viaY sx sy stk _ al cs hc hsx e⟩
 
 /-- T3 for S1: every typed expression of the fragment set does to the stack what its type says. -/
-theorem sound_s1 (hsig0 : ∀ k, sigOK k [] = false) :
-    ∀ (n : Ms), s1Typed ctx n = true → Sound sigOK ctx h160 n
-  | .f0, _ => sound_f0 sigOK ctx h160
-  | .f1, _ => sound_f1 sigOK ctx h160
-  | .pk_k k, _ => sound_pk_k sigOK ctx h160 hsig0 k
+theorem sound_s1 (hsig0 : ∀ k, E.sigOK k [] = false) :
+    ∀ (n : Ms), s1Typed ctx n = true → Sound E ctx h160 n
+  | .f0, _ => sound_f0 E ctx h160
+  | .f1, _ => sound_f1 E ctx h160
+  | .pk_k k, _ => sound_pk_k E ctx h160 hsig0 k
   | .wrap w x, h => by
     simp only [s1Typed, Bool.and_eq_true, Bool.or_eq_true, beq_iff_eq, decide_eq_true_eq] at h
     have ih := sound_s1 hsig0 x h.2
     rcases h.1.1 with ((rfl | rfl) | rfl) | rfl
-    · exact sound_c sigOK ctx h160 x h.1.2 ih
-    · exact sound_v sigOK ctx h160 x h.1.2 ih
-    · exact sound_a sigOK ctx h160 x h.1.2 ih
-    · exact sound_n sigOK ctx h160 x h.1.2 ih
+    · exact sound_c E ctx h160 x h.1.2 ih
+    · exact sound_v E ctx h160 x h.1.2 ih
+    · exact sound_a E ctx h160 x h.1.2 ih
+    · exact sound_n E ctx h160 x h.1.2 ih
   | .bin b x y, h => by
     simp only [s1Typed, Bool.and_eq_true, Bool.or_eq_true, beq_iff_eq, decide_eq_true_eq] at h
     have ihx := sound_s1 hsig0 x h.1.2
     have ihy := sound_s1 hsig0 y h.2
     rcases h.1.1.1 with ((((rfl | rfl) | rfl) | rfl) | rfl) | rfl
-    · exact sound_and_v sigOK ctx h160 x y h.1.1.2 ihx ihy
-    · exact sound_and_b sigOK ctx h160 x y h.1.1.2 ihx ihy
-    · exact sound_or_b sigOK ctx h160 x y h.1.1.2 ihx ihy
-    · exact sound_or_i sigOK ctx h160 x y h.1.1.2 (inS1_of_s1Typed ctx x h.1.2)
+    · exact sound_and_v E ctx h160 x y h.1.1.2 ihx ihy
+    · exact sound_and_b E ctx h160 x y h.1.1.2 ihx ihy
+    · exact sound_or_b E ctx h160 x y h.1.1.2 ihx ihy
+    · exact sound_or_i E ctx h160 x y h.1.1.2 (inS1_of_s1Typed ctx x h.1.2)
         (inS1_of_s1Typed ctx y h.2) ihx ihy
-    · exact sound_or_c sigOK ctx h160 x y h.1.1.2 (inS1_of_s1Typed ctx y h.2) ihx ihy
-    · exact sound_or_d sigOK ctx h160 x y h.1.1.2 (inS1_of_s1Typed ctx y h.2) ihx ihy
+    · exact sound_or_c E ctx h160 x y h.1.1.2 (inS1_of_s1Typed ctx y h.2) ihx ihy
+    · exact sound_or_d E ctx h160 x y h.1.1.2 (inS1_of_s1Typed ctx y h.2) ihx ihy
   | .andor x y z, h => by
     simp only [s1Typed, Bool.and_eq_true, decide_eq_true_eq] at h
-    exact sound_andor sigOK ctx h160 x y z h.1.1.1 (inS1_of_s1Typed ctx y h.1.2)
+    exact sound_andor E ctx h160 x y z h.1.1.1 (inS1_of_s1Typed ctx y h.1.2)
       (inS1_of_s1Typed ctx z h.2) (sound_s1 hsig0 x h.1.1.2) (sound_s1 hsig0 y h.1.2)
       (sound_s1 hsig0 z h.2)
   | .pk_h _, h | .older _, h | .after _, h | .hash _ _, h | .multi _ _, h | .multi_a _ _, h
